@@ -172,10 +172,18 @@ def targets():
         for pre in ("", "init.", "nn.init."):
             ex.models[pre + "uniform_"] = filler("uniform_")
             ex.models[pre + "normal_"] = filler("normal_")
-        return ex
+        return add_array_models(ex)
 
     def one_fill(s, which, tensor):
         fills = s.glob.get("__fills", [])
+        if not fills:
+            # the filler's body written out in place: the tensor's data is an array drawn from the law in question
+            d = s.attrs(tensor).get("data")
+            if isinstance(d, Obj) and d.cls == "NdArray":
+                gen = s.attrs(d).get("gen", ())
+                if gen and gen[0] + "_" == which and len(gen) == 3:
+                    return (which, tensor, gen[1], gen[2])
+            return None
         if len(fills) != 1 or fills[0][0] != which or fills[0][1] is not tensor:
             return None
         return fills[0]
@@ -185,6 +193,7 @@ def targets():
             def setup(ex, mode=mode):
                 s = State()
                 t = Obj("Tensor")
+                s.attrs(t).update(shape=Opaque("shape"), dtype=Opaque("dtype"), data=Opaque("old_data"))
                 g = z3.Real("gain_arg")
                 s.pc.append(g > 0)
                 args = [t] + ([g] if fn.startswith("xavier") else [z3.Real("a"), mode, "leaky_relu"])
@@ -218,9 +227,7 @@ def targets():
     mk("kaiming_normal_", "normal_", lambda sd, g, fi, fo, fan: sd * sd * _real(fan) == g * g, modes=("fan_in", "fan_out", "fan_avg"))
 
     # ---- the five basic fillers: what is drawn, where it is stored, and the frame (identity, shape, dtype, requires_grad flag and every other attribute of the tensor untouched)
-    def fill_executor():
-        ex = base_executor()
-
+    def add_array_models(ex):
         def array(s, shape, dtype, gen):
             o = Obj("NdArray")
             s.attrs(o).update(shape=shape, dtype=dtype, gen=gen)
@@ -245,6 +252,9 @@ def targets():
             return array(s, a["shape"], args[1] if len(args) > 1 else kw.get("dtype"), a["gen"])
         ex.models["NdArray.astype"] = astype
         return ex
+
+    def fill_executor():
+        return add_array_models(base_executor())
 
     def mk_fill(fn, nargs, gen_of):
         def setup(ex):
